@@ -16,7 +16,12 @@ value-dependent fields of the submitted TBSCertificate - notBefore / notAfter in
 2051, 9999 (first / middle / last second; every ordered pair), serial numbers 1, 127, 128, 2^159-1, an extension
 identifier with multi-octet arcs - on an X.509 entry, a directly issued precertificate and precertificates behind
 both kinds of precertificate signing certificate (law FieldsVerbatim: the SCT is over, and the leaf equals, the entry
-with every such field written as the CA wrote it).
+with every such field written as the CA wrote it); and the extended key usage LIST of the certificate that signed the
+leaf, as written: the CT purpose alone, before / after anyExtendedKeyUsage, before / after a specific purpose, between
+anyExtendedKeyUsage and a specific purpose (precertificate signing certificates), and anyExtendedKeyUsage alone, a
+specific purpose alone, both (real issuers) - law EkuMembershipDecides: membership of the CT purpose decides whose key
+hash, name and authority key identifier the entry carries, neither position nor company; the harness reads the list off
+the DER (cryptobyte), not off any certificate parser.
 """
 import json
 
@@ -35,12 +40,15 @@ def run(ctx, replay=None):
     if not replay:
         # the certificate token opened: SCT over the independently derived entry for every shape of submission
         # (cross-signed roots, pre-issuers with either AKI form, key types, non-fatal oddities, chain storage modes)
-        ctx.assumptions.append(
+        ctx.assumptions += [
             "entry shapes: validity years {1949, 1950, 1999, 2000, 2049, 2050, 2051, 9999} at the first / last (thorough: "
             "also a middle) second, written as a conforming CA (std crypto/x509) writes them - UTCTime exactly for "
             "1950..2049; serial numbers {1, 127, 128, 2^159-1}; one extension identifier 2.999.2147483647.1; these ride "
             "on 4 representative shapes (X.509, precert direct, precert behind a pre-issuer with keyid / full AKI), "
-            "P-256 keys, root omitted, in-backend chain mode")
+            "P-256 keys, root omitted, in-backend chain mode",
+            "extended key usage lists of the signing certificate: purposes {CT, anyExtendedKeyUsage, serverAuth, clientAuth}, "
+            "lists of 1-3 members (10 lists, EntryShapes!EkuSeq) on plain P-256 chains with the root omitted / included in "
+            "every chain storage mode of the tier; an X.509 submission under the three real issuers of the dimension too"]
         ctfe_common.entry_shapes(ctx, "C01")
         # "carries the validated chain as extra data" when the chain is carried by hash (external issuance chain storage):
         # what is acknowledged is stored in the table of that log - also after a failed storage.Add and a re-submission,
